@@ -4,7 +4,6 @@ import (
 	"bytes"
 	"fmt"
 	"os"
-	"strconv"
 	"time"
 )
 
@@ -35,7 +34,7 @@ func (d *destinationFile) log(t time.Time, level Level, format string, args ...a
 		d.buf.WriteString(`","level":"`)
 		writeLevel(&d.buf, level, false)
 		d.buf.WriteString(`","message":`)
-		d.buf.WriteString(strconv.Quote(fmt.Sprintf(format, args...)))
+		writeJSONString(&d.buf, fmt.Sprintf(format, args...))
 		d.buf.WriteString(`}`)
 		d.buf.WriteByte('\n')
 	} else {
